@@ -3,6 +3,7 @@
 
 pub mod peer;
 pub mod relay;
+pub mod validate;
 pub mod wt;
 
 pub use peer::*;
